@@ -442,3 +442,62 @@ VARIANTS += [
     fire('r6-grammar-bool-word-boundary', ['C15'], [(GRM, "BOOL.10: /(?:TRUE|FALSE)(?![A-Za-z0-9'._:\\-]|[^\\x00-\\x7f])/", 'BOOL.10: /(?:TRUE|FALSE)\\b/')], None),
     silent('r6-twin-grammar-null-lookahead-class', ['C15', 'C12'], [(GRM, "NULL.10: /NULL(?![A-Za-z0-9'._:\\-]|[^\\x00-\\x7f])/", "NULL.10: /NULL(?![^\\x00-\\x7f]|[0-9A-Za-z:._'\\-])/")]),
 ]
+
+DOC = 'autobean_refactor/models/document.py'
+VARIANTS += [
+    fire('r6-document-trailing-from-leading', ['C15'], [(DOC, "trailing_comment=BlockComment.from_value(trailing_comment) if trailing_comment is not None else None", "trailing_comment=BlockComment.from_value(leading_comment) if trailing_comment is not None else None")], 'FV-ARG'),
+    silent('r6-twin-document-trailing-local', ['C15'], [(DOC, "        return cls.from_children(", "        tc = BlockComment.from_value(trailing_comment) if trailing_comment is not None else None\n        return cls.from_children("),
+                                                        (DOC, "            trailing_comment=BlockComment.from_value(trailing_comment) if trailing_comment is not None else None,", "            trailing_comment=tc,")]),
+]
+
+VARIANTS += [
+    fire('r6-meta-update-default-indent', ['C18'], [(MI, "    def keys(self) -> RepeatedMetaKeysView:\n", "    @no_type_check\n    def update(self, other=(), /, **kwargs) -> None:\n        values = dict(other, **kwargs)\n        for item in self:\n            if item.key in values:\n                item.value = values.pop(item.key)\n        self.extend(from_mapping(values, indent=self._default_indent_getter()))\n\n    def keys(self) -> RepeatedMetaKeysView:\n")], 'IND-FLOW'),
+    silent('r6-twin-meta-update-sibling-indent', ['C18'], [(MI, "    def keys(self) -> RepeatedMetaKeysView:\n", "    @no_type_check\n    def update(self, other=(), /, **kwargs) -> None:\n        values = dict(other, **kwargs)\n        for item in self:\n            if item.key in values:\n                item.value = values.pop(item.key)\n        indent = self._get_indent()\n        self.extend(from_mapping(values, indent=indent))\n\n    def keys(self) -> RepeatedMetaKeysView:\n")]),
+    fire('r6-transaction-meta-default-indent', ['C18'], [(TR, "meta=meta_item_internal.from_mapping(meta, indent=indent_by) if meta is not None else (),", "meta=meta_item_internal.from_mapping(meta) if meta is not None else (),"),
+                                                          (MI, "*, indent: str) -> Iterator[MetaItem]:", "*, indent: str = ' ' * 4) -> Iterator[MetaItem]:")], 'IND-CLASS'),
+    silent('r6-twin-from-mapping-default-unused', ['C18'], [(MI, "*, indent: str) -> Iterator[MetaItem]:", "*, indent: str = ' ' * 4) -> Iterator[MetaItem]:")]),
+]
+
+VARIANTS += [
+    fire('r6-operand-zero-refused', ['C13'], [(NE, "        elif isinstance(other, decimal.Decimal):\n            other = NumberExpr.from_value(other)", "        elif isinstance(other, decimal.Decimal):\n            if not other.is_normal():\n                raise ValueError('not a number')\n            other = NumberExpr.from_value(other)")], 'OP-PAIR'),
+    fire('r6-operand-negative-refused', ['C13'], [(NE, "        if isinstance(other, int):\n            other = NumberExpr.from_value(decimal.Decimal(other))", "        if isinstance(other, int):\n            if other < 0:\n                return NotImplemented\n            other = NumberExpr.from_value(decimal.Decimal(other))")], 'OP-PAIR'),
+    silent('r6-twin-operand-nonfinite-refused', ['C13'], [(NE, "        elif isinstance(other, decimal.Decimal):\n            other = NumberExpr.from_value(other)", "        elif isinstance(other, decimal.Decimal):\n            if not other.is_finite():\n                raise ValueError('not a number')\n            other = NumberExpr.from_value(other)")]),
+]
+
+_ITER_PREV = ("    def iter_prev(self, token: _T) -> Iterator[_T]:\n        handle = _check_store_handle(token)\n        yield from reversed(handle.block.tokens[:handle.index])\n"
+              "        for i in range(handle.block.index - 1, %s, -1):\n            yield from reversed(self._blocks[i].tokens)\n\n    def get_first(self) -> Optional[_T]:\n")
+_SP_OLD = "        return tuple(reversed(_find_spacing(\n                self.token_store.get_prev(self.first_token),\n                self.token_store.get_prev)))"
+_SP_NEW = "        it = self.token_store.iter_prev(self.first_token)\n        return tuple(reversed(_find_spacing(next(it, None), lambda _: next(it, None))))"
+VARIANTS += [
+    fire('r6-store-iter-prev-skips-block0', ['C07', 'C17'], [(TS, "    def get_first(self) -> Optional[_T]:\n", _ITER_PREV % '0'), (SP, _SP_OLD, _SP_NEW)], None),
+    silent('r6-twin-store-iter-prev', ['C07', 'C17'], [(TS, "    def get_first(self) -> Optional[_T]:\n", _ITER_PREV % '-1'), (SP, _SP_OLD, _SP_NEW)]),
+]
+
+VARIANTS += [
+    fire('r6-postlex-comment-no-block', ['C14'], [(PA, "            if indent_text and not indented:\n                indented = True", "            if indent_text and not indented and not comment_text:\n                indented = True")], 'POSTLEX-BLOCK'),
+    fire('r6-postlex-no-final-dedent', ['C14'], [(PA, "        if indented:\n            yield lark.Token(self._DEDENT_MARK, '')", "        if indented and not prev_is_block_comment:\n            yield lark.Token(self._DEDENT_MARK, '')")], 'POSTLEX-BLOCK'),
+    silent('r6-twin-postlex-flag-name', ['C14', 'C01'], [(PA, "            if indent_text and not indented:\n                indented = True", "            if not indented and indent_text:\n                indented = True")]),
+    fire('r6-repeated-eq-subtrees', ['C20'], [(RP, "        return isinstance(other, Repeated) and self.items == other.items", "        if not isinstance(other, Repeated):\n            return False\n        return [i for i in self.items if isinstance(i, base.RawTreeModel)] == [i for i in other.items if isinstance(i, base.RawTreeModel)]")], 'COVER-EQ'),
+    silent('r6-twin-repeated-eq-guard', ['C20'], [(RP, "        return isinstance(other, Repeated) and self.items == other.items", "        if not isinstance(other, Repeated):\n            return False\n        return self.items == other.items")]),
+    fire('r6-claim-new-separator', ['C14', 'C04'], [(SC, "    backwards: bool,\n    ignore_if_already_claimed: bool,\n) -> Optional[BlockComment]:", "    separators: tuple[base.RawTokenModel, ...] = (),\n    backwards: bool,\n    ignore_if_already_claimed: bool,\n) -> Optional[BlockComment]:"),
+                                                     (SC, "                [newline, comment, *ignored], first, comment)", "                [*separators, comment, *ignored], first, comment)")], None),
+]
+
+VARIANTS += [
+    fire('r6-editor-read-surrogateescape', ['C16'], [(ED, "        with p.open(newline='') as f:", "        with p.open(newline='', errors='surrogateescape') as f:")], 'ED-CODEC'),
+    fire('r6-editor-read-latin1', ['C16'], [(ED, "            with open(current_path, newline='') as f:", "            with open(current_path, newline='', encoding='latin-1') as f:")], 'ED-CODEC'),
+    silent('r6-twin-editor-utf8-both', ['C16'], [(ED, "        with p.open(newline='') as f:", "        with p.open(newline='', encoding='utf-8') as f:"), (ED, "            with p.open('w', newline='') as f:", "            with p.open('w', newline='', encoding='utf-8') as f:")]),
+    fire('r6-date-isoformat', ['C12'], [(DT, "        return f'{value.year:04d}-{value.month:02d}-{value.day:02d}'", "        return value.isoformat()")], 'FMT-LANG'),
+]
+
+VARIANTS += [
+    fire('r6-claim-shift-nearest-after', ['C05', 'C14'], [(IC, "                self._repeated.token_store, first, comments_after[-1], backwards=False)", "                self._repeated.token_store, first, comments_after[0], backwards=False)")], 'SPLICE-ORDER'),
+    fire('r6-claim-shift-nearest-before', ['C05'], [(IC, "                self._repeated.token_store, comments_before[0], self._repeated.first_token, backwards=True)", "                self._repeated.token_store, comments_before[-1], self._repeated.first_token, backwards=True)")], 'SPLICE-ORDER'),
+    silent('r6-twin-claim-shift-local', ['C05', 'C14'], [(IC, "            _shift_ignored(\n                self._repeated.token_store, first, comments_after[-1], backwards=False)", "            farthest = comments_after[-1]\n            _shift_ignored(\n                self._repeated.token_store, first, farthest, backwards=False)")]),
+]
+
+VARIANTS += [
+    fire('r6-drop-many-ascending', ['C19'], [(PR, "        indexes = sorted(indexes, reverse=True)\n", "        indexes = sorted(indexes)\n"),
+                                             (PR, "key=lambda i: i + next(count))", "key=lambda i: i - next(count))"),
+                                             (PR, "            self._del_tokens(r[-1], r[0] + 1)", "            self._del_tokens(r[0], r[-1] + 1)")], 'DROP-REFUSE'),
+]
